@@ -5,6 +5,7 @@ Property theorems over the model `ErdosVerif.Strl` (Model/Strl.lean, Model/StrlS
 import ErdosVerif.Lemmas.StrlCap
 import ErdosVerif.Lemmas.StrlExact
 import ErdosVerif.Lemmas.StrlMax
+import ErdosVerif.Lemmas.StrlStruct
 namespace ErdosVerif.C20
 open ErdosVerif.Strl
 
@@ -96,6 +97,30 @@ theorem max_at_most_one (ctx : Ctx) (name : String) (cs : List Expr) (σ : Assig
   simp only [buildErr] at hb
   exact list_max_one ctx σ cs [] 0 hb hvars (fun c h => hcons c (List.mem_append_left _ h))
 
+/- Full statement (NOT claimed; false for the current code, see
+`static_lessthan_counterexample`): `structure_sound_full` = the theorem below without the
+hypothesis `noStaticLt`. -/
+
+/-- **Min / Max / LessThan structure.** In every tree the C++ accepts at construction time in
+which no `LessThan` is decided at compile time (`noStaticLt`, excludes exactly the class
+C20-F2), for every assignment that satisfies the compiled model, at every node of the tree
+(`nodeClause`): a node without utility or with indicator 0 reports no placement ("nothing for
+unsatisfied ones"); a `Min` that reports a placement has every child with utility and
+indicator 1 ("all children"); a `Max` reports at most one placement; for a `LessThan` whose
+children both provide utility the first child's end time is no later than the second child's
+start time, and if it reports a placement both children have indicator 1. -/
+theorem structure_sound_partial (ctx : Ctx) (name : String) (cs : List Expr) (σ : Assign)
+    (hb : buildErr (.obj name cs) = none)
+    (hns : noStaticLt ctx [] (.obj name cs) = true)
+    (hfeas : (compile ctx (.obj name cs)).feasible σ = true) :
+    forallNodesL (nodeClause ctx σ) [] 0 cs := by
+  rw [compile_obj] at hfeas
+  simp only [MipModel.feasible, Bool.and_eq_true, List.all_eq_true] at hfeas
+  obtain ⟨hvars, hcons⟩ := hfeas
+  simp only [buildErr] at hb
+  simp only [noStaticLt] at hns
+  exact list_structure ctx σ cs [] 0 hb hns hvars (fun c h => hcons c (List.mem_append_left _ h))
+
 /-- Non-vacuity of `capacity_sound_partial` and `choose_exact`: an aligned tree (granularity 2, starts 0 and 2), a feasible
 assignment that places `A` and `B` on one slot each of the 2-slot partition `P0` during [2,4). -/
 def ctxOK : Ctx := ⟨[⟨0, "P0", 2⟩], [0], 0, 2⟩
@@ -109,9 +134,10 @@ def σOK : Assign := fun v =>
   else if v = ⟨[0], .maxEnd⟩ ∨ v = ⟨[1], .minEnd⟩ then 4 else 0
 
 example : (compile ctxOK treeOK).feasible σOK = true ∧ alignedTo ctxOK.gran 0 treeOK = true ∧
+    buildErr treeOK = none ∧ noStaticLt ctxOK [] treeOK = true ∧
     (populate ctxOK σOK treeOK).placements.map (·.name) = ["A", "B"] ∧
     usageAt (populate ctxOK σOK treeOK).placements 0 2 = 2 := by
-  refine ⟨by decide, by decide, by decide, by decide⟩
+  refine ⟨by decide, by decide, by decide, by decide, by decide, by decide⟩
 
 /-! ### Witnesses -/
 
@@ -145,8 +171,12 @@ def σF2 : Assign := fun v =>
 theorem static_lessthan_counterexample :
     (compile ctxG1 treeF2).feasible σF2 = true ∧
     (populate ctxG1 σF2 treeF2).placements.map (·.name) = ["A"] ∧
-    (populate ctxG1 σF2 treeF2).utility = some 3 := by
-  refine ⟨by decide, by decide, by decide⟩
+    (populate ctxG1 σF2 treeF2).utility = some 3 ∧
+    -- the LessThan node reports a placement although its second child has indicator 0
+    (populateNode ctxG1 σF2 [0, 0] (.lt "L" (.choose "A" "" [0] 1 0 1 2) (.choose "B" "" [0] 2 1 1 3))).placements ≠ [] ∧
+    indVal σF2 (compileNode ctxG1 [1, 0, 0] (.choose "B" "" [0] 2 1 1 3)).pr = 0 ∧
+    noStaticLt ctxG1 [] treeF2 = false := by
+  refine ⟨by decide, by decide, by decide, by decide, by decide, by decide⟩
 
 /-- F3: a `Min` over an Allocation is worth 1 although the tree has no Choose at all. -/
 def treeF3 : Expr := .obj "O" [.min "N" [.alloc "A" [(0, 1)] 0 1]]
